@@ -228,8 +228,15 @@ fn write_local_var<T>(vm: &mut Vm<T>, handle: u32, value: Value, offset: usize) 
     vm.runtime_data
         .value_stack
         .set(offset + handle as usize, value)
-        .map_err(|err| {
-            ExecutionErrorPayload::VarNotFound(format!("Failed to set local variable: {}", err))
+        .map_err(|err| match err {
+            // declaring a new local pushes it: a full stack is a stack overflow
+            crate::collections::value_stack::StackError::Full => {
+                ExecutionErrorPayload::Stackoverflow
+            }
+            err => ExecutionErrorPayload::VarNotFound(format!(
+                "Failed to set local variable: {}",
+                err
+            )),
         })?;
     Ok(())
 }
